@@ -137,8 +137,10 @@ def isXCoord (c : EC.Curve) (x : Int) : Bool :=
   decide (0 ≤ x ∧ x < c.p) &&
     (EC.modPow (EC.y2 c.toCurveGroup x) ((c.p.toNat - 1) / 2) c.p != c.p - 1)
 
-/-- a public key given as a tuple: `point_from_pub_key` refuses what is not on the curve or has y = 0 -/
+/-- a public key given as a tuple: `point_from_pub_key` refuses what is not on the curve or has y = 0;
+    `is_on_curve` refuses (raises on) an x outside `0..p-1` (/repo d8821600) as it does a y outside `1..p-1` -/
 def pubKeyOk (c : EC.Curve) (Q : EC.Point) : Bool :=
+  decide (0 ≤ Q.1 ∧ Q.1 < c.p) &&
   match EC.isOnCurve c.toCurveGroup Q with
   | some true => Q.2 != 0
   | _ => false
